@@ -4,7 +4,7 @@ import os, json, subprocess, shutil, hashlib
 HERE = os.path.dirname(os.path.abspath(__file__))
 VERIF = os.path.dirname(HERE)
 REPO = os.environ.get("VERIF_REPO", "/repo")
-TARGET = "/var/tmp/verif-replay-target"
+TARGET = os.environ.get("VERIF_REPLAY_TARGET", "/var/tmp/verif-replay-target")   # background runs from a snapshot use their own target dir
 
 CARGO_TOML = """[package]
 name = "nundb-replay"
@@ -21,7 +21,7 @@ futures = "0.3.1"
 
 def build():
     """build /verif/replay/src/main.rs against REPO; returns path of the binary (raises on failure)"""
-    crate = "/var/tmp/verif-replay-crate-" + hashlib.sha1(REPO.encode()).hexdigest()[:8]
+    crate = "/var/tmp/verif-replay-crate-" + hashlib.sha1((REPO + "|" + VERIF).encode()).hexdigest()[:8]
     os.makedirs(os.path.join(crate, "src"), exist_ok=True)
     shutil.copy(os.path.join(VERIF, "replay", "src", "main.rs"), os.path.join(crate, "src", "main.rs"))
     open(os.path.join(crate, "Cargo.toml"), "w").write(CARGO_TOML % REPO)
